@@ -1,10 +1,820 @@
-import JP.Driver
-import JP.Impl.Den
+import JP.Lemmas.EngineSpecFacts
 
-/-! # Property C01 — theorems (see DESIGN.md §6) -/
+/-!
+# C01 — RFC 6902 application computes the RFC result (and corollaries C05 / C13)
+
+The engine model `Impl.applyOps` refines the specification `Spec.applyFrom`, operation list by
+operation list: whenever the specification is defined (`ok` / `fail`, not `unspec`), the engine
+succeeds exactly when the specification does, and the value of the resulting root is the
+specification's result *as an ordered value* (`den r'.con = v`, which is C05's "member order and
+literals"), with AllowMissingPathOnRemove handled through `Spec.skipsRemove` (C13).
+
+Hypotheses carried by the theorems (see the report at the end of the file):
+* `EqSpec`  – `eqNC` decides `Value.eqv` on `den` (used only by `test`);
+* the text invariant `TX o.esc` on the root and `CstOK o.esc` on operation values, `QK o.esc` on
+  the reference tokens of `path` – needed because `copy` re-prints a subtree and reads it back;
+* a `copy` operation has a `from` member (guaranteed by `Impl.decodeOp`).
+-/
 
 namespace JP
 namespace C01
+
+open Impl
+
+abbrev EqSpec : Prop := Impl.EqSpec
+
+/-- side conditions on one decoded operation -/
+structure OpOK (e : Bool) (op : Impl.Op) : Prop where
+  /-- the value has no duplicate member names and its strings survive re-printing -/
+  val : ∀ c, op.value = some c → c.valueOf.noDup = true ∧ Impl.CstOK e c = true
+  /-- the reference tokens of `path` survive printing as member names -/
+  toks : ∀ toks, Spec.parsePointer op.path = some toks → ∀ t ∈ toks, Impl.QK e t = true
+  /-- `copy` has a `from` member (`decodeOp` rejects the operation otherwise) -/
+  frm : op.kind = ascii "copy" → op.frm ≠ none
+
+theorem spec_novalue {so : Spec.Opts} {sz acc : Nat} {doc : Value} {sop : Spec.Op}
+    (hk : sop.kind = .add ∨ sop.kind = .replace) (hv : sop.value = none) :
+    Spec.applyOp so sz acc doc sop = .unspec := by
+  cases hp : Spec.parsePointer sop.path with
+  | none => simp only [Spec.applyOp, hp]
+  | some toks => rcases hk with hk | hk <;> simp only [Spec.applyOp, hp, hk, hv]
+
+theorem fstOut_lift (acc : Int) (x : Outcome Root) :
+    fstOut (match x with
+      | .ok r' => .ok (r', acc)
+      | .err e => .err e
+      | .panic => .panic) = x := by
+  cases x <;> rfl
+
+/-- one operation -/
+theorem applyOp_refines (hEq : EqSpec) (o : Impl.Opts) (ho : o.ensure = false) (hl : o.limit = 0)
+    (r : Impl.Root) (hr : InvRoot o.esc r) (op : Impl.Op) (sop : Spec.Op)
+    (hs : specOp op = some sop) (hop : OpOK o.esc op) (sz acc : Nat) (acci : Int) :
+    OpRef o.esc (Spec.applyOp (specOpts o) sz acc (den r.con) sop)
+      (fstOut (Impl.applyOp o r acci op)) := by
+  simp only [specOp] at hs
+  cases hkind : specKind op.kind with
+  | none => rw [hkind] at hs; cases hs
+  | some k =>
+    rw [hkind] at hs
+    simp only [Option.some.injEq] at hs
+    subst hs
+    simp only [specKind] at hkind
+    have hvalInv : ∀ c, op.value = some c → Inv o.esc (.raw c) :=
+      fun c hc => (Inv_raw _ _).2 (hop.val c hc)
+    by_cases h1 : op.kind = ascii "add"
+    · simp only [h1, if_true, Option.some.injEq] at hkind
+      subst hkind
+      have happ : fstOut (Impl.applyOp o r acci op) = opAdd o r op := by
+        simp only [Impl.applyOp]; rw [if_pos h1]; exact fstOut_lift _ _
+      rw [happ]
+      cases hv : op.value with
+      | none => rw [spec_novalue (Or.inl rfl) (by simp)]; trivial
+      | some c =>
+        exact opAdd_refines sz acc ho hr rfl rfl hv (by simp) (hvalInv c hv) hop.toks
+    · simp only [h1, if_false] at hkind
+      by_cases h2 : op.kind = ascii "remove"
+      · simp only [h2, if_true, Option.some.injEq] at hkind
+        subst hkind
+        have happ : fstOut (Impl.applyOp o r acci op) = opRemove o r op := by
+          simp only [Impl.applyOp]; rw [if_neg h1, if_pos h2]; exact fstOut_lift _ _
+        rw [happ]
+        exact opRemove_refines sz acc hr rfl rfl
+      · simp only [h2, if_false] at hkind
+        by_cases h3 : op.kind = ascii "replace"
+        · simp only [h3, if_true, Option.some.injEq] at hkind
+          subst hkind
+          have happ : fstOut (Impl.applyOp o r acci op) = opReplace o r op := by
+            simp only [Impl.applyOp]; rw [if_neg h1, if_neg h2, if_pos h3]; exact fstOut_lift _ _
+          rw [happ]
+          cases hv : op.value with
+          | none => rw [spec_novalue (Or.inr rfl) (by simp)]; trivial
+          | some c =>
+            exact opReplace_refines sz acc hr rfl rfl hv (by simp) (hvalInv c hv) hop.toks
+        · simp only [h3, if_false] at hkind
+          by_cases h4 : op.kind = ascii "move"
+          · simp only [h4, if_true, Option.some.injEq] at hkind
+            subst hkind
+            have happ : fstOut (Impl.applyOp o r acci op) = opMove o r op := by
+              simp only [Impl.applyOp]; rw [if_neg h1, if_neg h2, if_neg h3, if_pos h4]; exact fstOut_lift _ _
+            rw [happ]
+            exact opMove_refines sz acc hr rfl rfl rfl hop.toks
+          · simp only [h4, if_false] at hkind
+            by_cases h5 : op.kind = ascii "copy"
+            · simp only [h5, if_true, Option.some.injEq] at hkind
+              subst hkind
+              have happ : Impl.applyOp o r acci op = opCopy o r acci op := by
+                have h6 : op.kind ≠ ascii "test" := by rw [h5]; decide
+                simp only [Impl.applyOp]
+                rw [if_neg h1, if_neg h2, if_neg h3, if_neg h4, if_neg h6, if_pos h5]
+              rw [happ]
+              cases hf : op.frm with
+              | none => exact absurd hf (hop.frm h5)
+              | some f =>
+                exact opCopy_refines sz acc acci hl hr rfl rfl hf (by simp) hop.toks
+            · simp only [h5, if_false] at hkind
+              by_cases h6 : op.kind = ascii "test"
+              · simp only [h6, if_true, Option.some.injEq] at hkind
+                subst hkind
+                have happ : fstOut (Impl.applyOp o r acci op) = opTest o r op := by
+                  simp only [Impl.applyOp]; rw [if_neg h1, if_neg h2, if_neg h3, if_neg h4, if_pos h6]; exact fstOut_lift _ _
+                rw [happ]
+                exact opTest_refines hEq sz acc hr rfl rfl rfl (fun c hc => (hop.val c hc).1)
+              · simp only [h6, if_false] at hkind
+                cases hkind
+
+theorem fstOut_ok {x : Outcome (Root × Int)} {r' : Root} (h : fstOut x = .ok r') :
+    ∃ a, x = .ok (r', a) := by
+  cases x with
+  | ok ra => obtain ⟨r1, a⟩ := ra; simp only [fstOut, Outcome.ok.injEq] at h; subst h; exact ⟨a, rfl⟩
+  | err e => cases h
+  | panic => cases h
+
+theorem fstOut_err {x : Outcome (Root × Int)} {er : Err} (h : fstOut x = .err er) : x = .err er := by
+  cases x with
+  | ok ra => cases h
+  | err e => simp only [fstOut, Outcome.err.injEq] at h; subst h; rfl
+  | panic => cases h
+
+/-- the operation list, with the root invariant `InvRoot` (= `WFRoot` + the text invariant) -/
+theorem applyOps_refines_inv (hEq : EqSpec) (o : Impl.Opts) (ho : o.ensure = false) (hl : o.limit = 0)
+    (sizeAt : Nat → Nat) :
+    ∀ (ops : List Impl.Op) (sops : List Spec.Op) (r : Impl.Root) (i acc : Nat) (acci : Int),
+      InvRoot o.esc r → specOps ops = some sops → (∀ op ∈ ops, OpOK o.esc op) →
+      match Spec.applyFrom (specOpts o) sizeAt i acc (Impl.den r.con) sops with
+      | .ok v => ∃ r', Impl.applyOps o r acci ops = .ok r' ∧ Impl.den r'.con = v ∧ InvRoot o.esc r'
+      | .fail _ _ => ∃ e, Impl.applyOps o r acci ops = .err e
+      | .unspec => True := by
+  intro ops
+  induction ops with
+  | nil =>
+    intro sops r i acc acci hr hs _
+    simp only [specOps, Option.some.injEq] at hs
+    subst hs
+    simp only [Spec.applyFrom, Impl.applyOps]
+    exact ⟨r, rfl, rfl, hr⟩
+  | cons op ops ih =>
+    intro sops r i acc acci hr hs hops
+    simp only [specOps] at hs
+    cases hso : specOp op with
+    | none => rw [hso] at hs; cases hs
+    | some s =>
+      cases hss : specOps ops with
+      | none => rw [hso, hss] at hs; cases hs
+      | some ss =>
+        rw [hso, hss] at hs
+        simp only [Option.some.injEq] at hs
+        subst hs
+        have h1 := applyOp_refines hEq o ho hl r hr op s hso (hops op List.mem_cons_self)
+          (sizeAt i) acc acci
+        simp only [Spec.applyFrom, Impl.applyOps]
+        cases hres : Spec.applyOp (specOpts o) (sizeAt i) acc (den r.con) s with
+        | unspec => trivial
+        | fail c =>
+          rw [hres] at h1
+          obtain ⟨er, her⟩ := h1
+          rw [fstOut_err her]
+          exact ⟨er, rfl⟩
+        | ok va =>
+          obtain ⟨d, acc'⟩ := va
+          rw [hres] at h1
+          obtain ⟨r', hr', hinv, hden⟩ := h1
+          obtain ⟨a, ha⟩ := fstOut_ok hr'
+          rw [ha]
+          simp only at hden ⊢
+          have := ih ss r' (i + 1) acc' a hinv hss (fun op' h => hops op' (List.mem_cons_of_mem _ h))
+          rw [hden] at this
+          exact this
+
+/-- **C01** — the engine refines the specification, operation list by operation list: ordered
+equality of the value, success exactly when the specification succeeds.  The two accumulators
+(`acc` of the specification, `acci` of the engine) are unrelated: with `o.limit = 0` neither
+influences the result. -/
+theorem applyOps_refines (hEq : EqSpec) (o : Impl.Opts) (ho : o.ensure = false) (hl : o.limit = 0)
+    (r : Impl.Root) (hr : Impl.WFRoot r = true) (htx : Impl.TX o.esc r.con = true)
+    (ops : List Impl.Op) (sops : List Spec.Op) (hops : specOps ops = some sops)
+    (hv : ∀ op ∈ ops, ∀ c, op.value = some c → c.valueOf.noDup = true)
+    (hcst : ∀ op ∈ ops, ∀ c, op.value = some c → Impl.CstOK o.esc c = true)
+    (hq : ∀ op ∈ ops, ∀ toks, Spec.parsePointer op.path = some toks → ∀ t ∈ toks, Impl.QK o.esc t = true)
+    (hfrm : ∀ op ∈ ops, op.kind = ascii "copy" → op.frm ≠ none)
+    (sizeAt : Nat → Nat) (i acc : Nat) (acci : Int) :
+    match Spec.applyFrom (specOpts o) sizeAt i acc (Impl.den r.con) sops with
+    | .ok v => ∃ r', Impl.applyOps o r acci ops = .ok r' ∧ Impl.den r'.con = v ∧
+        Impl.WFRoot r' = true ∧ Impl.TX o.esc r'.con = true
+    | .fail _ _ => ∃ e, Impl.applyOps o r acci ops = .err e
+    | .unspec => True := by
+  have h := applyOps_refines_inv hEq o ho hl sizeAt ops sops r i acc acci
+    ((InvRoot_iff _ _).2 ⟨hr, htx⟩) hops
+    (fun op hop => ⟨fun c hc => ⟨hv op hop c hc, hcst op hop c hc⟩, hq op hop, hfrm op hop⟩)
+  cases hres : Spec.applyFrom (specOpts o) sizeAt i acc (Impl.den r.con) sops with
+  | unspec => trivial
+  | fail j c => rw [hres] at h; exact h
+  | ok v =>
+    rw [hres] at h
+    obtain ⟨r', h1, h2, h3⟩ := h
+    exact ⟨r', h1, h2, ((InvRoot_iff _ _).1 h3).1, ((InvRoot_iff _ _).1 h3).2⟩
+
+/-- the statement with one accumulator for both sides (as `ApplyWithOptions` starts both at 0) -/
+theorem applyOps_refines_acc (hEq : EqSpec) (o : Impl.Opts) (ho : o.ensure = false) (hl : o.limit = 0)
+    (r : Impl.Root) (hr : Impl.WFRoot r = true) (htx : Impl.TX o.esc r.con = true)
+    (ops : List Impl.Op) (sops : List Spec.Op) (hops : specOps ops = some sops)
+    (hv : ∀ op ∈ ops, ∀ c, op.value = some c → c.valueOf.noDup = true)
+    (hcst : ∀ op ∈ ops, ∀ c, op.value = some c → Impl.CstOK o.esc c = true)
+    (hq : ∀ op ∈ ops, ∀ toks, Spec.parsePointer op.path = some toks → ∀ t ∈ toks, Impl.QK o.esc t = true)
+    (hfrm : ∀ op ∈ ops, op.kind = ascii "copy" → op.frm ≠ none)
+    (sizeAt : Nat → Nat) (i acc : Nat) :
+    match Spec.applyFrom (specOpts o) sizeAt i acc (Impl.den r.con) sops with
+    | .ok v => ∃ r', Impl.applyOps o r (acc : Int) ops = .ok r' ∧ Impl.den r'.con = v ∧
+        Impl.WFRoot r' = true ∧ Impl.TX o.esc r'.con = true
+    | .fail _ _ => ∃ e, Impl.applyOps o r (acc : Int) ops = .err e
+    | .unspec => True :=
+  applyOps_refines hEq o ho hl r hr htx ops sops hops hv hcst hq hfrm sizeAt i acc acc
+
+/-- decoding the document text's syntax tree into the initial root establishes the invariant -/
+theorem decodeRoot_spec {e : Bool} {c : Cst} (h1 : c.valueOf.noDup = true) (h2 : Impl.CstOK e c = true)
+    (hc : c.valueOf.isContainer = true) (cr : Bool) :
+    ∃ con, Impl.decodeRoot c = .ok con ∧ InvRoot e { con := con, self := .raw c, selfCR := cr } ∧
+      Impl.den con = c.valueOf := by
+  have h : Inv e (.raw c) := (Inv_raw e c).2 ⟨h1, h2⟩
+  cases c with
+  | lit s => rw [isContainer_valueOf] at hc; simp [Cst.isArr, Cst.isObj] at hc
+  | str b => rw [isContainer_valueOf] at hc; simp [Cst.isArr, Cst.isObj] at hc
+  | arr xs => exact ⟨_, rfl, ⟨Inv_decodeAry h, by simp [decodeAry, isCon]⟩, den_decodeAry xs⟩
+  | obj ms => exact ⟨_, rfl, ⟨Inv_decodeDoc h, by simp [decodeDoc, isCon]⟩, den_decodeDoc h⟩
+
+/-- **C01 from the document's syntax tree**: `Spec.apply` on the document's value against the
+engine started as `ApplyIndentWithOptions` starts it (`decodeRoot`, accumulator 0) -/
+theorem apply_refines (hEq : EqSpec) (o : Impl.Opts) (ho : o.ensure = false) (hl : o.limit = 0)
+    (c : Cst) (hc1 : c.valueOf.noDup = true) (hc2 : Impl.CstOK o.esc c = true) (cr : Bool)
+    (ops : List Impl.Op) (sops : List Spec.Op) (hops : specOps ops = some sops)
+    (hv : ∀ op ∈ ops, ∀ c, op.value = some c → c.valueOf.noDup = true)
+    (hcst : ∀ op ∈ ops, ∀ c, op.value = some c → Impl.CstOK o.esc c = true)
+    (hq : ∀ op ∈ ops, ∀ toks, Spec.parsePointer op.path = some toks → ∀ t ∈ toks, Impl.QK o.esc t = true)
+    (hfrm : ∀ op ∈ ops, op.kind = ascii "copy" → op.frm ≠ none)
+    (sizeAt : Nat → Nat) :
+    match Spec.apply (specOpts o) sizeAt c.valueOf sops with
+    | .ok v => ∃ con r', Impl.decodeRoot c = .ok con ∧
+        Impl.applyOps o { con := con, self := .raw c, selfCR := cr } 0 ops = .ok r' ∧
+        Impl.den r'.con = v ∧ Impl.WFRoot r' = true
+    | .fail _ _ => ∃ con e, Impl.decodeRoot c = .ok con ∧
+        Impl.applyOps o { con := con, self := .raw c, selfCR := cr } 0 ops = .err e
+    | .unspec => True := by
+  simp only [Spec.apply]
+  cases hcont : c.valueOf.isContainer with
+  | false => simp
+  | true =>
+    simp only [if_true]
+    obtain ⟨con, hd, hinv, hden⟩ := decodeRoot_spec (e := o.esc) hc1 hc2 hcont cr
+    have h := applyOps_refines_inv hEq o ho hl sizeAt ops sops _ 0 0 0 hinv hops
+      (fun op hop => ⟨fun c hc => ⟨hv op hop c hc, hcst op hop c hc⟩, hq op hop, hfrm op hop⟩)
+    simp only [hden] at h
+    cases hres : Spec.applyFrom (specOpts o) sizeAt 0 0 c.valueOf sops with
+    | unspec => trivial
+    | fail j cc =>
+      rw [hres] at h
+      obtain ⟨er, her⟩ := h
+      exact ⟨con, er, hd, her⟩
+    | ok v =>
+      rw [hres] at h
+      obtain ⟨r', h1, h2, h3⟩ := h
+      exact ⟨con, r', hd, h1, h2, ((InvRoot_iff _ _).1 h3).1⟩
+
+/-! ## Corollaries at the level of the specification (value semantics)
+
+Through `applyOps_refines` every statement about `Spec.applyOp` / `Spec.applyFrom` below is a
+statement about the value `den r'.con` the engine computes. -/
+
+open Spec (Res)
+
+/-- `move` is `remove` of the source followed by `add` of the removed value (RFC 6902 §4.4) -/
+theorem move_eq_remove_add (o : Spec.Opts) (ho : o.ensure = false) (ha : o.allowMissing = false)
+    (sz acc : Nat) (doc : Value) (path frm : Bytes) (ft pt : Bytes) (fts pts : List Bytes)
+    (hf : Spec.parsePointer frm = some (ft :: fts)) (hp : Spec.parsePointer path = some (pt :: pts)) :
+    Spec.applyOp o sz acc doc { kind := .move, path := path, frm := frm } =
+      (Spec.atParent o (Spec.getIn o false) doc (ft :: fts)).bind fun pv =>
+        (Spec.applyOp o sz acc doc { kind := .remove, path := frm }).bind fun da =>
+          Spec.applyOp o sz da.2 da.1 { kind := .add, path := path, value := some pv.2 } := by
+  rw [spec_move (sop := { kind := .move, path := path, frm := frm }) rfl hp hf,
+    spec_remove (sop := { kind := .remove, path := frm }) rfl hf ha]
+  obtain ⟨ns, key, hk⟩ := exists_concat (ft :: fts) (by simp)
+  rw [hk, atParent_nav, atParent_nav]
+  cases nav o doc ns with
+  | unspec => rfl
+  | fail c => rfl
+  | ok pk =>
+    simp only [Res.bind]
+    have hrel := removeIn_getIn_strong o pk.1 key
+    cases hrem : Spec.removeIn o pk.1 key with
+    | unspec => rw [hrem] at hrel; rw [hrel]
+    | fail c => rw [hrem] at hrel; rw [hrel]
+    | ok pv =>
+      rw [hrem] at hrel
+      rw [hrel]
+      simp only
+      rw [spec_add (sop := { kind := .add, path := path, value := some pv.2 }) rfl hp rfl ho]
+      rfl
+
+/-- an absent object member reads as null for `test`: where reading the location fails only
+because the member is absent, `test` against null (or without `value`) succeeds -/
+theorem test_absent_is_null (o : Spec.Opts) (sz acc : Nat) (doc : Value) (path : Bytes)
+    (t : Bytes) (ts : List Bytes) (hp : Spec.parsePointer path = some (t :: ts))
+    (habs : Spec.atParent o (Spec.getIn o false) doc (t :: ts) = .fail .absentMember)
+    (v : Option Value) (hv : v = none ∨ v = some .null) :
+    Spec.applyOp o sz acc doc { kind := .test, path := path, value := v } = .ok (doc, acc) := by
+  rw [spec_test (sop := { kind := .test, path := path, value := v }) rfl hp]
+  have hwant : (v.getD .null) = .null := by rcases hv with rfl | rfl <;> rfl
+  simp only [hwant]
+  obtain ⟨ns, key, hk⟩ := exists_concat (t :: ts) (by simp)
+  rw [hk, atParent_nav] at habs ⊢
+  cases hn : nav o doc ns with
+  | unspec => rw [hn] at habs; cases habs
+  | fail c =>
+    rw [hn] at habs
+    simp only [Res.bind, Res.fail.injEq] at habs
+    have := nav_fail_cause o ns doc c hn
+    rw [this] at habs; cases habs
+  | ok pk =>
+    obtain ⟨p, k⟩ := pk
+    rw [hn] at habs
+    simp only [Res.bind] at habs ⊢
+    obtain ⟨_, hkp⟩ := nav_ok o ns doc p k hn
+    cases p with
+    | obj ms =>
+      simp only [Spec.getIn] at habs ⊢
+      cases hl : Value.lookup key ms with
+      | some x => rw [hl] at habs; cases habs
+      | none => simp [Spec.testEq, Value.eqv]
+    | arr xs =>
+      simp only [Spec.getIn] at habs
+      cases hr : Spec.readIdx o.neg xs.length key with
+      | unspec => rw [hr] at habs; cases habs
+      | bad => rw [hr] at habs; cases habs
+      | «at» i =>
+        rw [hr] at habs
+        simp only at habs
+        cases hx : xs[i]? with
+        | none => rw [hx] at habs; cases habs
+        | some x => rw [hx] at habs; cases habs
+    | null => simp [Spec.getIn] at habs
+    | bool b => simp [Spec.getIn] at habs
+    | num l => simp [Spec.getIn] at habs
+    | str s => simp [Spec.getIn] at habs
+
+/-- what `add` / `replace` wrote is what the same pointer reads afterwards (the pointer must not
+end in `-`, which denotes the position *after* the last element) -/
+theorem write_then_read (o : Spec.Opts) (ho : o.ensure = false) (sz acc acc' : Nat) (doc d v : Value)
+    (path : Bytes) (k : Spec.OpKind) (hk : k = .add ∨ k = .replace)
+    (pt : Bytes) (pts : List Bytes) (hp : Spec.parsePointer path = some (pt :: pts))
+    (hdash : (pt :: pts).getLast? ≠ some [45]) (b : Bool)
+    (h : Spec.applyOp o sz acc doc { kind := k, path := path, value := some v } = .ok (d, acc')) :
+    Spec.atParent o (Spec.getIn o b) d (pt :: pts) = .ok (d, v) := by
+  obtain ⟨ns, key, hkey⟩ := exists_concat (pt :: pts) (by simp)
+  have hd : key ≠ [45] := by
+    intro hx; apply hdash; rw [hkey, hx]; simp
+  rcases hk with rfl | rfl
+  · rw [spec_add (sop := { kind := .add, path := path, value := some v }) rfl hp rfl ho] at h
+    rw [hkey] at h ⊢
+    cases hres : Spec.atParent o (Spec.addIn o v) doc (ns ++ [key]) with
+    | unspec => rw [hres] at h; cases h
+    | fail c => rw [hres] at h; cases h
+    | ok pa =>
+      obtain ⟨d', u⟩ := pa
+      rw [hres] at h
+      simp only [Res.bind, Res.ok.injEq, Prod.mk.injEq] at h
+      obtain ⟨rfl, _⟩ := h
+      exact atParent_then_getIn o (Spec.addIn o v) v doc d' u ns key b
+        (fun p pa hpa => addIn_container hpa)
+        (fun p p' u hpa => addIn_then_getIn o v p p' key u b hpa hd) hres
+  · rw [spec_replace (sop := { kind := .replace, path := path, value := some v }) rfl hp rfl] at h
+    rw [hkey] at h ⊢
+    cases hres : Spec.atParent o (Spec.replaceIn o v) doc (ns ++ [key]) with
+    | unspec => rw [hres] at h; cases h
+    | fail c => rw [hres] at h; cases h
+    | ok pa =>
+      obtain ⟨d', u⟩ := pa
+      rw [hres] at h
+      simp only [Res.bind, Res.ok.injEq, Prod.mk.injEq] at h
+      obtain ⟨rfl, _⟩ := h
+      exact atParent_then_getIn o (Spec.replaceIn o v) v doc d' u ns key b
+        (fun p pa hpa => replaceIn_container hpa)
+        (fun p p' u hpa => replaceIn_then_getIn o v p p' key u b hpa) hres
+
+/-- a null written by `add` / `replace` is found by `test` against null (or without `value`) -/
+theorem null_roundtrip (o : Spec.Opts) (ho : o.ensure = false) (sz sz' acc acc' : Nat) (doc d : Value)
+    (path : Bytes) (k : Spec.OpKind) (hk : k = .add ∨ k = .replace)
+    (pt : Bytes) (pts : List Bytes) (hp : Spec.parsePointer path = some (pt :: pts))
+    (hdash : (pt :: pts).getLast? ≠ some [45])
+    (h : Spec.applyOp o sz acc doc { kind := k, path := path, value := some .null } = .ok (d, acc'))
+    (w : Option Value) (hw : w = none ∨ w = some .null) :
+    Spec.applyOp o sz' acc' d { kind := .test, path := path, value := w } = .ok (d, acc') := by
+  have hread := write_then_read o ho sz acc acc' doc d .null path k hk pt pts hp hdash true h
+  rw [spec_test (sop := { kind := .test, path := path, value := w }) rfl hp, hread]
+  have hwant : (w.getD .null) = .null := by rcases hw with rfl | rfl <;> rfl
+  simp [Res.bind, hwant, Spec.testEq, Value.eqv]
+
+theorem spec_copy_gen {so : Spec.Opts} {sz acc : Nat} {doc : Value} {sop : Spec.Op}
+    {pt : Bytes} {pts ftoks : List Bytes}
+    (hk : sop.kind = .copy) (hp : Spec.parsePointer sop.path = some (pt :: pts))
+    (hf : Spec.parsePointer sop.frm = some ftoks) :
+    Spec.applyOp so sz acc doc sop =
+      (copySrc so doc ftoks).bind fun v =>
+        (Spec.atParent so (fun p _ => .ok (p, ())) doc (pt :: pts)).bind fun _ =>
+          if so.limit > 0 ∧ acc + sz > so.limit then .fail .copyLimit
+          else (Spec.atParent so (Spec.addIn so v) doc (pt :: pts)).bind fun vb => .ok (vb.1, acc + sz) := by
+  simp only [Spec.applyOp, hp, hk, hf, copySrc]
+  cases ftoks with
+  | nil =>
+    simp only [Res.bind]
+  | cons ft fts =>
+    simp only
+
+/-- any single-pointer operation (everything but `move`) whose pointer starts with the member
+name `b` of an object leaves every other member of that object as it is -/
+theorem applyOp_keeps (o : Spec.Opts) (ho : o.ensure = false) (sz acc acc' : Nat) (ms : Value.Members)
+    (d : Value) (sop : Spec.Op) (b : Bytes) (qs : List Bytes)
+    (hp : Spec.parsePointer sop.path = some (b :: qs)) (hk : sop.kind ≠ .move)
+    (h : Spec.applyOp o sz acc (.obj ms) sop = .ok (d, acc')) :
+    ∃ ms', d = .obj ms' ∧ ∀ a, a ≠ b → Value.lookup a ms' = Value.lookup a ms := by
+  have key : ∀ {α} (f : Value → Bytes → Res (Value × α)) (g : Value × α → Nat), KeepsOthers f →
+      (Spec.atParent o f (.obj ms) (b :: qs)).bind (fun vb => .ok (vb.1, g vb)) = .ok (d, acc') →
+      ∃ ms', d = .obj ms' ∧ ∀ a, a ≠ b → Value.lookup a ms' = Value.lookup a ms := by
+    intro α f g hf hh
+    cases hres : Spec.atParent o f (.obj ms) (b :: qs) with
+    | unspec => rw [hres] at hh; cases hh
+    | fail c => rw [hres] at hh; cases hh
+    | ok pa =>
+      rw [hres] at hh
+      simp only [Res.bind, Res.ok.injEq, Prod.mk.injEq] at hh
+      obtain ⟨ms', h1, h2⟩ := atParent_obj_keeps o f hf ms b qs pa hres
+      exact ⟨ms', by rw [← hh.1, h1], h2⟩
+  cases hkind : sop.kind with
+  | move => exact absurd hkind hk
+  | add =>
+    cases hv : sop.value with
+    | none => rw [spec_novalue (Or.inl hkind) hv] at h; cases h
+    | some v =>
+      rw [spec_add hkind hp hv ho] at h
+      exact key _ (fun _ => acc) (keeps_addIn o v) h
+  | replace =>
+    cases hv : sop.value with
+    | none => rw [spec_novalue (Or.inr hkind) hv] at h; cases h
+    | some v =>
+      rw [spec_replace hkind hp hv] at h
+      exact key _ (fun _ => acc) (keeps_replaceIn o v) h
+  | remove =>
+    cases ha : o.allowMissing with
+    | false =>
+      rw [spec_remove hkind hp ha] at h
+      exact key _ (fun _ => acc) (keeps_removeIn o) h
+    | true =>
+      rw [spec_remove_allow hkind hp ha] at h
+      cases hs : Spec.skipsRemove o (.obj ms) (b :: qs) with
+      | unspec => rw [hs] at h; cases h
+      | fail c => rw [hs] at h; cases h
+      | ok sk =>
+        rw [hs] at h
+        cases sk with
+        | true =>
+          simp only [Res.ok.injEq, Prod.mk.injEq] at h
+          exact ⟨ms, h.1.symm, fun _ _ => rfl⟩
+        | false => exact key _ (fun _ => acc) (keeps_removeIn o) h
+  | test =>
+    rw [spec_test hkind hp] at h
+    cases hres : Spec.atParent o (Spec.getIn o true) (.obj ms) (b :: qs) with
+    | unspec => rw [hres] at h; cases h
+    | fail c => rw [hres] at h; cases h
+    | ok pv =>
+      rw [hres] at h
+      simp only [Res.bind] at h
+      cases ht : Spec.testEq pv.2 (sop.value.getD .null) with
+      | unspec => rw [ht] at h; cases h
+      | fail c => rw [ht] at h; cases h
+      | ok u =>
+        rw [ht] at h
+        simp only [Res.ok.injEq, Prod.mk.injEq] at h
+        exact ⟨ms, h.1.symm, fun _ _ => rfl⟩
+  | copy =>
+    cases hf : Spec.parsePointer sop.frm with
+    | none => rw [spec_copy_none hkind hp hf] at h; cases h
+    | some ftoks =>
+      rw [spec_copy_gen hkind hp hf] at h
+      cases hsrc : copySrc o (.obj ms) ftoks with
+      | unspec => rw [hsrc] at h; cases h
+      | fail c => rw [hsrc] at h; cases h
+      | ok v =>
+        rw [hsrc] at h
+        simp only [Res.bind] at h
+        cases hprobe : Spec.atParent o (fun p x => (Res.ok (p, ()) : Res (Value × Unit))) (.obj ms) (b :: qs) with
+        | unspec => rw [hprobe] at h; cases h
+        | fail c => rw [hprobe] at h; cases h
+        | ok u =>
+          rw [hprobe] at h
+          simp only at h
+          by_cases hlim : o.limit > 0 ∧ acc + sz > o.limit
+          · rw [if_pos hlim] at h; cases h
+          · rw [if_neg hlim] at h
+            cases hres : Spec.atParent o (Spec.addIn o v) (.obj ms) (b :: qs) with
+            | unspec => rw [hres] at h; cases h
+            | fail c => rw [hres] at h; cases h
+            | ok pa =>
+              rw [hres] at h
+              simp only [Res.ok.injEq, Prod.mk.injEq] at h
+              obtain ⟨ms', h1, h2⟩ := atParent_obj_keeps o _ (keeps_addIn o v) ms b qs pa hres
+              exact ⟨ms', by rw [← h.1, h1], h2⟩
+
+/-- **copy is a copy** (value semantics): after `copy` from below member `a` to below member `b ≠ a`
+of an object, any further single-pointer operation below `b` (the destination side) leaves the
+member `a` (the source side) exactly as it was in the original document. -/
+theorem copy_isolated (o : Spec.Opts) (ho : o.ensure = false) (sz1 sz2 acc acc1 acc2 : Nat)
+    (ms : Value.Members) (frm path : Bytes) (a b : Bytes) (hab : a ≠ b) (fs ps qs : List Bytes)
+    (_hf : Spec.parsePointer frm = some (a :: fs)) (hp : Spec.parsePointer path = some (b :: ps))
+    (sop2 : Spec.Op) (hp2 : Spec.parsePointer sop2.path = some (b :: qs)) (hk2 : sop2.kind ≠ .move)
+    (d1 d2 : Value)
+    (h1 : Spec.applyOp o sz1 acc (.obj ms) { kind := .copy, path := path, frm := frm } = .ok (d1, acc1))
+    (h2 : Spec.applyOp o sz2 acc1 d1 sop2 = .ok (d2, acc2)) :
+    ∃ ms2, d2 = .obj ms2 ∧ Value.lookup a ms2 = Value.lookup a ms := by
+  obtain ⟨ms1, rfl, hk1⟩ := applyOp_keeps o ho sz1 acc acc1 ms d1
+    { kind := .copy, path := path, frm := frm } b ps hp (by simp) h1
+  obtain ⟨ms2, rfl, hk2'⟩ := applyOp_keeps o ho sz2 acc1 acc2 ms1 d2 sop2 b qs hp2 hk2 h2
+  exact ⟨ms2, rfl, by rw [hk2' a hab, hk1 a hab]⟩
+
+/-! ## The same corollaries for the engine, through `applyOps_refines` -/
+
+/-- an `add` of JSON null -/
+def addNull (path : Bytes) : Impl.Op := { kind := ascii "add", path := path, value := some Impl.litNull }
+/-- a `replace` by JSON null -/
+def replaceNull (path : Bytes) : Impl.Op := { kind := ascii "replace", path := path, value := some Impl.litNull }
+/-- a `test` against JSON null -/
+def testNull (path : Bytes) : Impl.Op := { kind := ascii "test", path := path, value := some Impl.litNull }
+/-- a `test` without `value` -/
+def testNone (path : Bytes) : Impl.Op := { kind := ascii "test", path := path }
+
+theorem OpOK_litNull (e : Bool) (kind path : Bytes) (hk : kind ≠ ascii "copy")
+    (hq : ∀ toks, Spec.parsePointer path = some toks → ∀ t ∈ toks, Impl.QK e t = true) :
+    OpOK e { kind := kind, path := path, value := some Impl.litNull } :=
+  ⟨fun c hc => by
+      simp only [Option.some.injEq] at hc; subst hc
+      exact ⟨by simp [litNull_valueOf, Value.noDup], CstOK_litNull e⟩,
+    hq, fun h => absurd h hk⟩
+
+/-- engine: a null written by `add` is found by a following `test` against null: the two
+operations together succeed exactly when the `add` alone is applicable, with the `add`'s result -/
+theorem engine_null_roundtrip (hEq : EqSpec) (o : Impl.Opts) (ho : o.ensure = false) (hl : o.limit = 0)
+    (r : Impl.Root) (hr : InvRoot o.esc r) (path : Bytes) (pt : Bytes) (pts : List Bytes)
+    (hp : Spec.parsePointer path = some (pt :: pts))
+    (hq : ∀ t ∈ pt :: pts, Impl.QK o.esc t = true)
+    (hdash : (pt :: pts).getLast? ≠ some [45]) (acci : Int) :
+    match Spec.applyOp (specOpts o) 0 0 (Impl.den r.con) { kind := .add, path := path, value := some .null } with
+    | .ok da => ∃ r', Impl.applyOps o r acci [addNull path, testNull path] = .ok r' ∧ Impl.den r'.con = da.1
+    | .fail _ => ∃ e, Impl.applyOps o r acci [addNull path, testNull path] = .err e
+    | .unspec => True := by
+  have hq' : ∀ toks, Spec.parsePointer path = some toks → ∀ t ∈ toks, Impl.QK o.esc t = true := by
+    intro toks htoks; rw [hp] at htoks; cases htoks; exact hq
+  have hs : specOps [addNull path, testNull path] =
+      some [{ kind := .add, path := path, value := some .null }, { kind := .test, path := path, value := some .null }] := by
+    simp only [specOps, specOp, addNull, testNull, Option.map_some, litNull_valueOf, Option.getD_none]
+    rfl
+  have h := applyOps_refines_inv hEq o ho hl (fun _ => 0)
+    [addNull path, testNull path] _ r 0 0 acci hr hs
+    (by
+      intro op hop
+      simp only [List.mem_cons, List.not_mem_nil, or_false] at hop
+      rcases hop with rfl | rfl
+      · exact OpOK_litNull _ _ _ (by decide) hq'
+      · exact OpOK_litNull _ _ _ (by decide) hq')
+  simp only [Spec.applyFrom] at h
+  cases hres : Spec.applyOp (specOpts o) 0 0 (Impl.den r.con)
+      { kind := .add, path := path, value := some .null } with
+  | unspec => trivial
+  | fail c => rw [hres] at h; exact h
+  | ok da =>
+    obtain ⟨d, acc'⟩ := da
+    rw [hres] at h
+    simp only at h
+    rw [null_roundtrip (specOpts o) (by simp [specOpts, ho]) 0 0 0 acc' _ d path .add (Or.inl rfl) pt pts hp
+      hdash hres (some .null) (Or.inr rfl)] at h
+    obtain ⟨r', h1, h2, _⟩ := h
+    exact ⟨r', h1, h2⟩
+
+/-- engine: `test` against null (or without `value`) of an absent member of an existing object
+succeeds and leaves the value of the document unchanged -/
+theorem engine_test_absent_is_null (hEq : EqSpec) (o : Impl.Opts) (r : Impl.Root) (hr : InvRoot o.esc r) (path : Bytes) (t : Bytes) (ts : List Bytes)
+    (hp : Spec.parsePointer path = some (t :: ts))
+    (habs : Spec.atParent (specOpts o) (Spec.getIn (specOpts o) false) (Impl.den r.con) (t :: ts) =
+      .fail .absentMember) (acci : Int) :
+    (∃ r', Impl.applyOps o r acci [testNull path] = .ok r' ∧ Impl.den r'.con = Impl.den r.con) ∧
+    (∃ r', Impl.applyOps o r acci [testNone path] = .ok r' ∧ Impl.den r'.con = Impl.den r.con) := by
+  have h1 := opTest_refines hEq (o := o) (e := o.esc) (r := r) (op := testNull path)
+    (sop := { kind := .test, path := path, value := some .null }) 0 0 hr rfl rfl
+    (by simp [testNull, litNull_valueOf])
+    (by intro c hc; simp only [testNull, Option.some.injEq] at hc; subst hc; simp [litNull_valueOf, Value.noDup])
+  have h2 := opTest_refines hEq (o := o) (e := o.esc) (r := r) (op := testNone path)
+    (sop := { kind := .test, path := path, value := none }) 0 0 hr rfl rfl
+    (by simp [testNone])
+    (by intro c hc; simp [testNone] at hc)
+  rw [test_absent_is_null (specOpts o) 0 0 _ path t ts hp habs (some .null) (Or.inr rfl)] at h1
+  rw [test_absent_is_null (specOpts o) 0 0 _ path t ts hp habs none (Or.inl rfl)] at h2
+  obtain ⟨r1, ha1, _, hd1⟩ := h1
+  obtain ⟨r2, ha2, _, hd2⟩ := h2
+  have hk1 : (testNull path).kind = ascii "test" := rfl
+  have hk2 : (testNone path).kind = ascii "test" := rfl
+  have e1 : Impl.applyOp o r acci (testNull path) = .ok (r1, acci) := by
+    simp only [Impl.applyOp]
+    rw [if_neg (by rw [hk1]; decide), if_neg (by rw [hk1]; decide), if_neg (by rw [hk1]; decide),
+      if_neg (by rw [hk1]; decide), if_pos hk1, ha1]
+  have e2 : Impl.applyOp o r acci (testNone path) = .ok (r2, acci) := by
+    simp only [Impl.applyOp]
+    rw [if_neg (by rw [hk2]; decide), if_neg (by rw [hk2]; decide), if_neg (by rw [hk2]; decide),
+      if_neg (by rw [hk2]; decide), if_pos hk2, ha2]
+  exact ⟨⟨r1, by simp only [Impl.applyOps, e1], hd1⟩, ⟨r2, by simp only [Impl.applyOps, e2], hd2⟩⟩
+
+/-- engine: after a `copy` from below member `a` to below member `b ≠ a` of the root object, a
+further operation below `b` leaves member `a` of the engine's document as it was: the copy shares
+nothing with its source -/
+theorem engine_copy_isolated (hEq : EqSpec) (o : Impl.Opts) (ho : o.ensure = false) (hl : o.limit = 0)
+    (r : Impl.Root) (hr : InvRoot o.esc r) (ms : Value.Members) (hms : Impl.den r.con = .obj ms)
+    (frm path : Bytes) (a b : Bytes) (hab : a ≠ b) (fs ps qs : List Bytes)
+    (hf : Spec.parsePointer frm = some (a :: fs)) (hp : Spec.parsePointer path = some (b :: ps))
+    (hqp : ∀ t ∈ b :: ps, Impl.QK o.esc t = true)
+    (op2 : Impl.Op) (sop2 : Spec.Op) (hs2 : specOp op2 = some sop2) (hop2 : OpOK o.esc op2)
+    (hp2 : Spec.parsePointer op2.path = some (b :: qs)) (hk2 : sop2.kind ≠ .move)
+    (sizeAt : Nat → Nat) (acci : Int) :
+    match Spec.applyFrom (specOpts o) sizeAt 0 0 (.obj ms)
+        [{ kind := .copy, path := path, frm := frm }, sop2] with
+    | .ok _ => ∃ r' ms2, Impl.applyOps o r acci
+          [{ kind := ascii "copy", path := path, frm := some frm }, op2] = .ok r' ∧
+        Impl.den r'.con = .obj ms2 ∧ Value.lookup a ms2 = Value.lookup a ms
+    | _ => True := by
+  have hpath2 : sop2.path = op2.path := by
+    simp only [specOp] at hs2
+    cases hk : specKind op2.kind with
+    | none => rw [hk] at hs2; cases hs2
+    | some k => rw [hk] at hs2; simp only [Option.some.injEq] at hs2; subst hs2; rfl
+  have hs : specOps [{ kind := ascii "copy", path := path, frm := some frm }, op2] =
+      some [{ kind := .copy, path := path, frm := frm }, sop2] := by
+    simp only [specOps, hs2]
+    rfl
+  have h := applyOps_refines_inv hEq o ho hl sizeAt _ _ r 0 0 acci hr hs
+    (by
+      intro op hop
+      simp only [List.mem_cons, List.not_mem_nil, or_false] at hop
+      rcases hop with rfl | rfl
+      · exact ⟨fun c hc => (by cases hc),
+          fun toks htoks => (by rw [hp] at htoks; cases htoks; exact hqp),
+          fun _ => (by simp)⟩
+      · exact hop2)
+  rw [hms] at h
+  cases hres : Spec.applyFrom (specOpts o) sizeAt 0 0 (.obj ms)
+      [{ kind := .copy, path := path, frm := frm }, sop2] with
+  | unspec => trivial
+  | fail i c => trivial
+  | ok v =>
+    rw [hres] at h
+    obtain ⟨r', h1, h2, _⟩ := h
+    simp only [Spec.applyFrom] at hres
+    cases hc1 : Spec.applyOp (specOpts o) (sizeAt 0) 0 (.obj ms) { kind := .copy, path := path, frm := frm } with
+    | unspec => rw [hc1] at hres; cases hres
+    | fail c => rw [hc1] at hres; cases hres
+    | ok da =>
+      obtain ⟨d1, acc1⟩ := da
+      rw [hc1] at hres
+      simp only at hres
+      cases hc2 : Spec.applyOp (specOpts o) (sizeAt (0 + 1)) acc1 d1 sop2 with
+      | unspec => rw [hc2] at hres; cases hres
+      | fail c => rw [hc2] at hres; cases hres
+      | ok da2 =>
+        obtain ⟨d2, acc2⟩ := da2
+        rw [hc2] at hres
+        simp only [Spec.Outcome.ok.injEq] at hres
+        subst hres
+        obtain ⟨ms2, hd2, hl2⟩ := copy_isolated (specOpts o) (by simp [specOpts, ho]) _ _ 0 acc1 acc2 ms
+          frm path a b hab fs ps qs hf hp sop2 (by rw [hpath2]; exact hp2) hk2 d1 d2 hc1 hc2
+        exact ⟨r', ms2, h1, by rw [h2, hd2], hl2⟩
+
+/-! ## The hypotheses are satisfiable: concrete instances -/
+
+section Examples
+
+def exO : Impl.Opts := {}
+
+/-- `{"a":{"x":"<"},"k":null}`, the member `a` still unparsed -/
+def exR : Impl.Root :=
+  { con := .doc [ascii "a", ascii "k"]
+      [(ascii "a", .raw (.obj [(ascii "x", .str (ascii "<"))])), (ascii "k", .nil)],
+    self := .nil }
+
+def exOps : List Impl.Op :=
+  [ { kind := ascii "add", path := ascii "/b", value := some (.arr [.lit (ascii "true")]) },
+    { kind := ascii "copy", path := ascii "/c", frm := some (ascii "/a") },
+    { kind := ascii "remove", path := ascii "/a/x" },
+    { kind := ascii "test", path := ascii "/k", value := some (.lit (ascii "null")) },
+    { kind := ascii "move", path := ascii "/m", frm := some (ascii "/b") } ]
+
+def exSops : List Spec.Op :=
+  [ { kind := .add, path := ascii "/b", value := some (.arr [.bool true]) },
+    { kind := .copy, path := ascii "/c", frm := ascii "/a" },
+    { kind := .remove, path := ascii "/a/x" },
+    { kind := .test, path := ascii "/k", value := some .null },
+    { kind := .move, path := ascii "/m", frm := ascii "/b" } ]
+
+/-- `{"a":{},"k":null,"c":{"x":"<"},"m":[true]}` -/
+def exResult : Value :=
+  .obj [(ascii "a", .obj []), (ascii "k", .null),
+        (ascii "c", .obj [(ascii "x", .str (ascii "<"))]), (ascii "m", .arr [.bool true])]
+
+/-- `applyOps_refines`: all hypotheses hold for a five-operation patch (with EscapeHTML on and a
+string that `compact` escapes), and the theorem then yields the engine's result -/
+example (hEq : EqSpec) :
+    ∃ r', Impl.applyOps exO exR 0 exOps = .ok r' ∧ Impl.den r'.con = exResult := by
+  have hmem : ∀ (P : Impl.Op → Prop), (∀ op ∈ exOps, P op) ↔
+      (P exOps[0] ∧ P exOps[1] ∧ P exOps[2] ∧ P exOps[3] ∧ P exOps[4]) := by
+    intro P; simp [exOps]
+  have hv : ∀ op ∈ exOps, ∀ c, op.value = some c → c.valueOf.noDup = true :=
+    (hmem _).2 (by refine ⟨?_, ?_, ?_, ?_, ?_⟩ <;> intro c hc <;> cases hc <;> decide)
+  have hcst : ∀ op ∈ exOps, ∀ c, op.value = some c → Impl.CstOK exO.esc c = true :=
+    (hmem _).2 (by refine ⟨?_, ?_, ?_, ?_, ?_⟩ <;> intro c hc <;> cases hc <;> decide)
+  have hq : ∀ op ∈ exOps, ∀ toks, Spec.parsePointer op.path = some toks →
+      ∀ t ∈ toks, Impl.QK exO.esc t = true :=
+    (hmem _).2 (by refine ⟨?_, ?_, ?_, ?_, ?_⟩ <;> intro toks ht <;> cases ht <;> decide)
+  have hfrm : ∀ op ∈ exOps, op.kind = ascii "copy" → op.frm ≠ none :=
+    (hmem _).2 (by refine ⟨?_, ?_, ?_, ?_, ?_⟩ <;> intro hk <;> first | exact absurd hk (by decide) | simp [exOps])
+  have h := applyOps_refines hEq exO rfl rfl exR (by decide) (by decide) exOps exSops (by rfl)
+    hv hcst hq hfrm (fun _ => 0) 0 0 0
+  have hs : Spec.applyFrom (specOpts exO) (fun _ => 0) 0 0 (Impl.den exR.con) exSops = .ok exResult := by rfl
+  rw [hs] at h
+  obtain ⟨r', h1, h2, _⟩ := h
+  exact ⟨r', h1, h2⟩
+
+/-- `move_eq_remove_add` on `{"a":1}`, `move /a → /b` -/
+example :
+    Spec.applyOp {} 0 0 (.obj [(ascii "a", .num (ascii "1"))])
+        { kind := .move, path := ascii "/b", frm := ascii "/a" } =
+      .ok (.obj [(ascii "b", .num (ascii "1"))], 0) := by
+  rw [move_eq_remove_add {} rfl rfl 0 0 _ (ascii "/b") (ascii "/a") (ascii "a") (ascii "b") [] [] rfl rfl]
+  rfl
+
+/-- `test_absent_is_null` on `{"a":1}`, `test /b null` -/
+example :
+    Spec.applyOp {} 0 0 (.obj [(ascii "a", .num (ascii "1"))])
+        { kind := .test, path := ascii "/b", value := some .null } =
+      .ok (.obj [(ascii "a", .num (ascii "1"))], 0) :=
+  test_absent_is_null {} 0 0 _ (ascii "/b") (ascii "b") [] rfl rfl _ (Or.inr rfl)
+
+/-- `write_then_read` / `null_roundtrip` on `{"a":{}}`, `add /a/n null` then `test /a/n` -/
+example :
+    Spec.applyOp {} 0 0 (.obj [(ascii "a", .obj [(ascii "n", .null)])])
+        { kind := .test, path := ascii "/a/n", value := none } =
+      .ok (.obj [(ascii "a", .obj [(ascii "n", .null)])], 0) :=
+  null_roundtrip {} rfl 0 0 0 0 (.obj [(ascii "a", .obj [])]) _ (ascii "/a/n") .add (Or.inl rfl)
+    (ascii "a") [ascii "n"] rfl (by decide) rfl none (Or.inl rfl)
+
+/-- `copy_isolated` / `applyOp_keeps` on `{"a":{"x":1}}`: `copy /a → /b`, then `replace /b/x 2` -/
+example :
+    ∃ ms2, (Value.obj [(ascii "a", .obj [(ascii "x", .num (ascii "1"))]),
+              (ascii "b", .obj [(ascii "x", .num (ascii "2"))])]) = .obj ms2 ∧
+      Value.lookup (ascii "a") ms2 =
+        Value.lookup (ascii "a") [(ascii "a", .obj [(ascii "x", .num (ascii "1"))])] :=
+  copy_isolated {} rfl 0 0 0 0 0 [(ascii "a", .obj [(ascii "x", .num (ascii "1"))])]
+    (ascii "/a") (ascii "/b") (ascii "a") (ascii "b") (by decide) [] [] [ascii "x"] rfl rfl
+    { kind := .replace, path := ascii "/b/x", value := some (.num (ascii "2")) } rfl (by simp)
+    (.obj [(ascii "a", .obj [(ascii "x", .num (ascii "1"))]), (ascii "b", .obj [(ascii "x", .num (ascii "1"))])])
+    _ rfl rfl
+
+/-- the engine-level corollaries: their hypotheses on `exR` -/
+example (hEq : EqSpec) :
+    ∃ r', Impl.applyOps exO exR 0 [addNull (ascii "/n"), testNull (ascii "/n")] = .ok r' ∧
+      Impl.den r'.con = .obj [(ascii "a", .obj [(ascii "x", .str (ascii "<"))]), (ascii "k", .null),
+        (ascii "n", .null)] := by
+  have h := engine_null_roundtrip hEq exO rfl rfl exR ((InvRoot_iff _ _).2 ⟨by decide, by decide⟩)
+    (ascii "/n") (ascii "n") [] rfl (by decide) (by decide) 0
+  have hs : Spec.applyOp (specOpts exO) 0 0 (Impl.den exR.con)
+      { kind := .add, path := ascii "/n", value := some .null } =
+      .ok (.obj [(ascii "a", .obj [(ascii "x", .str (ascii "<"))]), (ascii "k", .null),
+        (ascii "n", .null)], 0) := by rfl
+  rw [hs] at h
+  exact h
+
+example (hEq : EqSpec) :
+    ∃ r', Impl.applyOps exO exR 0 [testNone (ascii "/zz")] = .ok r' ∧ Impl.den r'.con = Impl.den exR.con :=
+  (engine_test_absent_is_null hEq exO exR ((InvRoot_iff _ _).2 ⟨by decide, by decide⟩)
+    (ascii "/zz") (ascii "zz") [] rfl (by rfl) 0).2
+
+end Examples
+
+/-
+#print axioms JP.C01.applyOps_refines            -- [propext, Classical.choice, Quot.sound]
+#print axioms JP.C01.applyOp_refines
+#print axioms JP.C01.applyOps_refines_acc
+#print axioms JP.C01.apply_refines
+#print axioms JP.C01.move_eq_remove_add
+#print axioms JP.C01.test_absent_is_null
+#print axioms JP.C01.null_roundtrip
+#print axioms JP.C01.write_then_read
+#print axioms JP.C01.copy_isolated
+#print axioms JP.C01.engine_null_roundtrip
+#print axioms JP.C01.engine_test_absent_is_null
+#print axioms JP.C01.engine_copy_isolated
+-/
 
 end C01
 end JP
